@@ -27,6 +27,7 @@ def run(chk, tier):
         from props import ctor
         ctor.push_value_mut(chk, F, 'R13.2.mut', cfg)
         helper_cell(chk, F, 'R13.6', cfg)
+        chain_teardown(chk, F, 'R13.7', cfg)
         lent_boxes(chk, F, 'R13.3.lent', cfg)
         leaks.census(chk, F, 'R13.4', cfg)
         # the chain is released by teardown (pre-effect) and by Drop only
@@ -153,6 +154,49 @@ def helper_cell(chk, F, rule, cfg):
                     if e.kind == 'drop' and field_path(e.data[0])[1][-1:] == ['default_impl_delegator_cell'] and body.defp != 'teardown::teardown':
                         chk.ob(rule, 'the helper cell is never dropped in place outside teardown', False, config=cfg, fn=body, site='helper-cell-drop', what='helper cell dropped in %s' % body.defp[-60:])
     chk.floor(rule, 'operations on the delegation helper cell', n, 4, config=cfg)
+
+
+def chain_teardown(chk, F, rule, cfg):
+    """Drop for ValueChain releases the chain iteratively: every cell it touches is emptied with `take` (the root first, then the
+    `next` cell of the node just taken out), each taken node's value is dropped, and the walk only stops at an empty cell. A
+    destructor that leaves nodes linked would hand the rest of the chain to the recursive drop glue - one stack frame group per
+    lent value - so "however many values are lent" would stop being true at teardown."""
+    fn = F.method('value_chain::ValueChain', 'drop', 'core::ops::Drop')
+    paths = symex.Interp(F, loop_bound=3).run(fn)
+    chk.analysed(fn)
+    n = 0
+    for p in paths:
+        ops = [e for e in p.effects if e.kind == 'call' and re.search(r'OnceCell(<T>)?::\w+$', e.data[1])]
+        n += len(ops)
+        bad = [e.data[1] for e in ops if not re.search(r'OnceCell(<T>)?::take$', e.data[1])]
+        chk.ob(rule, 'the chain destructor only unlinks (OnceCell::take) - it never walks the chain in place', not bad and bool(ops), config=cfg, fn=fn, site='chain-drop:ops',
+               what='chain destructor cell operations %s' % sorted(set(x.rsplit('::', 1)[-1] for x in bad)), found=[e.data[1] for e in ops], expected='take only')
+        prev = None
+        ok = True
+        for i, e in enumerate(ops):
+            recv = e.data[2][0]
+            if i == 0:
+                ok = ok and field_path(recv) == (('param', 0, 1), ['root'])
+            else:
+                ok = ok and prev is not None and mentions(recv, lambda x: x[0] == 'call' and x[3] == prev.data[3] and x[1] == prev.data[1]) and 'next' in field_path(recv)[1]
+            prev = e
+        chk.ob(rule, 'the chain destructor takes the root, then the `next` cell of each node it took', ok, config=cfg, fn=fn, site='chain-drop:order', what='chain destructor take order',
+               found=[show(e.data[2][0])[:80] for e in ops])
+        # stops only at an empty cell
+        last = None
+        for d in p.decisions:
+            v = strip(d.value)
+            if v[0] == 'discr' and is_call(strip(v[1]), r'OnceCell(<T>)?::take$'):
+                last = symex.decision_variant(F, d)
+        chk.ob(rule, 'the chain destructor stops only at an empty cell', last == 'None', config=cfg, fn=fn, site='chain-drop:complete', what='chain destructor exit after %s' % last, found=last)
+        # every node taken has its value dropped
+        takes_some = [strip(strip(d.value)[1]) for d in p.decisions if strip(d.value)[0] == 'discr' and is_call(strip(strip(d.value)[1]), r'OnceCell(<T>)?::take$') and symex.decision_variant(F, d) == 'Some']
+        dropped = 0
+        for t in takes_some:
+            if any((e.kind == 'drop' and mentions(e.data[0], lambda x: x == t)) or (e.kind == 'call' and re.search(r'mem::drop$', e.data[1]) and mentions(e.data[2][0], lambda x: x == t)) for e in p.effects):
+                dropped += 1
+        chk.ob(rule, 'every node taken out is released', dropped == len(takes_some), config=cfg, fn=fn, site='chain-drop:values', what='values released %d/%d' % (dropped, len(takes_some)))
+    chk.floor(rule, 'cell operations in the chain destructor', n, 3, config=cfg)
 
 
 def lent_boxes(chk, F, rule, cfg):
